@@ -173,7 +173,7 @@ package iobroker
 // ConnectInOut: both sides get one key which no other call uses (the counter
 // value obtained in this call identifies the request).
 //@ func Broker.ConnectInOut(b, ctx, sl, addr, w, r)
-//@   props C06
+//@   props C06 C04
 //@   ghost rid int = 0
 //@   ghost nTok int = 0
 //@   ghost nIn int = 0
@@ -183,7 +183,14 @@ package iobroker
 //@   on call atomic.Uint64.Add(c, d) (n): assert(d >= 1, "counter_advances"); rid = n; nTok++
 //@   on enter Broker.ConnectIn(bb, c, l, a, ww, k): assert(nTok == 1 && k == b.bidirKey + strconv.FormatUint(rid, 10) && bb == b && ww == w, "input_side_gets_the_per_request_key"); nIn++
 //@   on enter Broker.ConnectOut(bb, c, l, a, rr, k): assert(nTok == 1 && k == b.bidirKey + strconv.FormatUint(rid, 10) && bb == b && rr == r, "output_side_gets_the_per_request_key"); nOut++
+//@   ghost nAdd int = 0
+//@   ghost nDone int = 0
+//@   ghost nWait int = 0
+//@   on enter sync.WaitGroup.Add(g, n): assert(g == &wg && nAdd == 0 && nDone == 0 && nWait == 0, "both_halves_announced_before_they_start"); nAdd = nAdd + n
+//@   on enter sync.WaitGroup.Done(g): assert(g == &wg && nAdd == 2, "each_half_signals_its_end"); nDone++
+//@   on enter sync.WaitGroup.Wait(g): assert(g == &wg && nAdd == 2 && nIn == 1 && nOut == 1, "request_stays_open_until_both_halves_have_ended"); nWait++
 //@   ensures both_sides_once: nIn == 1 && nOut == 1 && nTok == 1
+//@   ensures request_waits_for_both_halves_and_each_half_signals_once: nAdd == 2 && nDone == 2 && nWait == 1
 
 // ---- operator notices from the broker (C10)
 //@ func Broker.sendLine(b, color, addr, format, a)
